@@ -21,7 +21,9 @@ type NativeRunner struct {
 	RtDir      string // /verif/harness/rt
 	tmp        string
 	overlays   map[string]string // pkg rel -> overlay json path
-	Skip       map[string]bool   // harness files (pkg rel + "/" + base name) set aside because they no longer compile
+	SweepName  string            // when set: the named input is swept over 0..SweepMax instead of taken from the vector
+	SweepMax   int
+	Skip       map[string]bool // harness files (pkg rel + "/" + base name) set aside because they no longer compile
 }
 
 func NewNativeRunner(repo, harnessDir string) (*NativeRunner, error) {
@@ -144,7 +146,7 @@ func (n *NativeRunner) Replay(pkgRel, harness string, vectorFile string, repeat 
 	if err != nil {
 		return ReplayOutcome{Err: err.Error()}
 	}
-	ctx, cancel := context.WithTimeout(context.Background(), 5*time.Minute)
+	ctx, cancel := context.WithTimeout(context.Background(), 10*time.Minute)
 	defer cancel()
 	// the test binary runs under an address-space limit: a counterexample that makes the
 	// real code allocate by a header field must not take the machine down
@@ -178,6 +180,9 @@ func (n *NativeRunner) Replay(pkgRel, harness string, vectorFile string, repeat 
 		fmt.Sprintf("VERIF_REPEAT=%d", repeat))
 	if synctest {
 		env = append(env, "VERIF_SYNCTEST=1")
+	}
+	if n.SweepName != "" {
+		env = append(env, "VERIF_SWEEP_NAME="+n.SweepName, fmt.Sprintf("VERIF_SWEEP_MAX=%d", n.SweepMax))
 	}
 	cmd.Env = env
 	var buf bytes.Buffer
